@@ -10,7 +10,7 @@ FAMILIES = [("Sat3", "any"), ("Sat3", "any"), ("Bool", "any"), ("Rat", "nocycle"
             ("MaxTimes", "nocycle"), ("Sat2", "any"), ("RatU", "acyclic"), ("Sat3", "twocycles"), ("Bool", "twocycles"),
             ("Rat", "signed")]        # signed real weights: partial sums that cancel to exactly zero
 SINGLE = ["trim", "cotrim", "binarize", "separate_start", "separate_terminals", "nullaryremove", "unaryremove",
-          "unarycycleremove", "cnf", "renumber", "rename", "rename_int", "unfold", "getitem_start"]
+          "unarycycleremove", "cnf", "renumber", "rename", "rename_int", "text", "unfold", "getitem_start"]
 POSTS = {"cnf", "nonullary", "nounary", "nounarycycle", "arity2", "startoff", "preterminal", "trimmed", "cotrimmed", "nozero"}
 
 
@@ -19,6 +19,8 @@ def options(rng, name, g):
         return rng.choice([{}, {"binarize": False}, {"trim": False}, {"binarize": True, "trim": True}])
     if name == "unarycycleremove":
         return rng.choice([{}, {"trim": False}])
+    if name == "text":
+        return {"arrow": rng.choice(["→", "->"])} if gops._text_ok(g) else None
     if name == "unfold":
         cands = [(i, k) for i, r in enumerate(g.rules) for k, y in enumerate(r.body) if y not in g.V]
         if not cands:
@@ -68,7 +70,7 @@ def generate(rng, tier, shard, nshards):
         gb = gops.build(G, srn, names)
         todo = [[t] for t in SINGLE]
         for _ in range(3 if tier == "quick" else 6):
-            todo.append([rng.choice(SINGLE[:-4] + ["rename_int"]) for _ in range(rng.choice([2, 3]))])
+            todo.append([rng.choice(SINGLE[:-5] + ["rename_int", "text"]) for _ in range(rng.choice([2, 3]))])
         for pipe in todo:
             steps = []
             ok = True
